@@ -360,6 +360,15 @@ func c17EvalHook(cs c17Case, noHook string, seen func(string)) (string, string) 
 		if cs.D.Verb == 'w' && cs.Pos != 0 {
 			return "", "" // %w on a non-error operand: bad verb, nothing dispatched (C15)
 		}
+		if cs.D.Verb == 'w' && got == want {
+			// the hook is handed the verb the operand is formatted with: a correctly used %w is %v (C15), so the
+			// text is the one %v gives (the proxy cannot tell: it is dispatched at the same place as the hook)
+			dv := cs
+			dv.D.Verb = 'v'
+			if gv := c17Run(dv, 0); gv != got {
+				return "hook-verb-under-%w", fmt.Sprintf("%s with a hook installed = %q, but with v in place of w %q: under a correctly used %%w the hook must see what it sees under %%v", c17Desc(cs), got, gv)
+			}
+		}
 		if got != want {
 			return "hook-rendering:" + c17Positions[cs.Pos].Name, fmt.Sprintf("%s with a hook installed = %q, want %q (the hook's rendering, exactly as an equivalent SafeFormatter prints there)", c17Desc(cs), got, want)
 		}
